@@ -11,6 +11,7 @@ NOTE = ("Trusted: go/ssa construction (x/tools v0.29.0), the engine's instructio
 
 # property -> (claimed?, level text, design ref)
 CLAIMED = {
+ "C04": ("One-step relation against the framing specification from an arbitrary reader state: stream octets, cursor, number of arrived octets, read chunk sizes and the end/fault offset are solver variables; the real Decode/DecodeBlocked and io.ReadFull are executed symbolically.", "DESIGN.md 8 C04"),
  "C16": ("Set round trip for 0..3 parameters with symbolic distinct tags and values under every serialisation order (map order explored as a nondeterministic choice), agreement of the two parsers on well-formed sequences, no-fabrication against a reference walk for every short octet string, and the 16-bit size boundary jobs are all solver-decided on the real TLV/Options code.", "DESIGN.md 8 C16"),
  "C12": ("One-step induction over call histories: every PDU type is encoded with the buffer pool in an arbitrary state (stale content on Get, backing array havocked on Put) and decoded from a buffer that is then overwritten with arbitrary octets; the encoder's bytes and every decoded field must be unchanged - decided by z3 with the overwritten octets as free variables.", "DESIGN.md 8 C12"),
  "C11": ("Stability: every octet string of the listed lengths that a decoder accepts (all octets symbolic) is re-encoded and decoded again symbolically; success and field-wise equality are solver-decided on every accepting path. Canonical images: the symbolic PDUs of C01 are re-encoded after decoding and compared bit-for-bit.", "DESIGN.md 8 C11"),
